@@ -144,7 +144,7 @@ func genC19Pub(t *rapid.T) C19PubCase {
 	c := C19PubCase{Msg: genMsg(true).Draw(t, "msg")}
 	c.Replayer = stats.From(t, []string{"finite", "valid"}, "replayer")
 	c.Auto = stats.Pct(t, "auto") < 70
-	c.Times = 1 + stats.Pick(t, 6, "times")
+	c.Times = 1 + stats.Pick(t, 8, "times")
 	c.ViaJoe = rapid.Bool().Draw(t, "viajoe")
 	return c
 }
@@ -167,9 +167,16 @@ func (s *sigReplayer) Put(m *sse.Message, topics []string) (*sse.Message, error)
 	return r, err
 }
 
-type collectWriter struct{ got []string }
+type collectWriter struct {
+	got  []string
+	msgs []*sse.Message
+}
 
-func (c *collectWriter) Send(m *sse.Message) error { c.got = append(c.got, m.String()); return nil }
+func (c *collectWriter) Send(m *sse.Message) error {
+	c.got = append(c.got, m.String())
+	c.msgs = append(c.msgs, m)
+	return nil
+}
 func (c *collectWriter) Flush() error              { return nil }
 
 func checkC19Pub(t *testing.T, c C19PubCase) *stats.Verdict {
@@ -204,6 +211,17 @@ func checkC19Pub(t *testing.T, c C19PubCase) *stats.Verdict {
 		return oracle.Encode(w)
 	}
 	v.Class(fmt.Sprintf("%s/auto=%v/joe=%v", c.Replayer, c.Auto, c.ViaJoe))
+	// every message handed out by Put / delivered by Joe is kept and re-encoded after every
+	// later publication: a publication must keep its own ID for good
+	var handedOut []*sse.Message
+	recheck := func(when string) string {
+		for i, h := range handedOut {
+			if g, w := h.String(), wantWire(i); g != w {
+				return fmt.Sprintf("%s: the message of publication #%d now encodes to %q, it was %q", when, i, g, w)
+			}
+		}
+		return ""
+	}
 	if !c.ViaJoe {
 		for i := 0; i < c.Times; i++ {
 			got, err := rep.Put(m, []string{"t"})
@@ -215,6 +233,10 @@ func checkC19Pub(t *testing.T, c C19PubCase) *stats.Verdict {
 			}
 			if g, w := got.String(), wantWire(i); g != w {
 				return v.Failf("", "Put #%d returned %q, want %q", i, g, w)
+			}
+			handedOut = append(handedOut, got)
+			if f := recheck(fmt.Sprintf("after Put #%d", i)); f != "" {
+				return v.Failf("", "%s", f)
 			}
 		}
 	} else {
@@ -251,6 +273,10 @@ func checkC19Pub(t *testing.T, c C19PubCase) *stats.Verdict {
 		}
 		if after := m.String(); after != before {
 			return v.Failf("", "caller's message changed: %q -> %q", before, after)
+		}
+		handedOut = cw.msgs
+		if f := recheck("after all publications through Joe"); f != "" {
+			return v.Failf("", "%s", f)
 		}
 	}
 	v.NonTrivial = c.Auto && c.Times >= 2
